@@ -126,9 +126,13 @@ func (ch *Channel) run() {
 	case <-ch.ctx.Done():
 		verifPoint("ch.run.ctxDone", ch)
 		close(writerTerminate)
-		<-writerDone
 
+		// close the transport before waiting for the writer, as the other branch does:
+		// a writer that is blocked inside Write() of a transport without write deadlines
+		// (serial port held by flow control) is released by the closure only,
+		// otherwise Node.Close() never returns.
 		ch.rwc.Close()
+		<-writerDone
 		<-readerDone
 	}
 
